@@ -27,6 +27,9 @@ ASSUMPTIONS = ["CPython ast; clang 14 AST for Jitgcc.c/Jitllvm.c", "breakpoints 
                "(a CallbackHandler) - re-derived from Jitter.__init__"]
 
 
+PRELOAD_C = ['miasm/jitter/Jitgcc.c', 'miasm/jitter/Jitllvm.c']
+
+
 def run(ck):
     m = ck.repo.mod(JL)
     jm = m.methods("Jitter")
